@@ -11,6 +11,7 @@ mod coord;
 mod dispatch;
 mod wm;
 mod join;
+mod misc;
 
 fn main() {
     let args: Vec<String> = std::env::args().collect();
@@ -37,6 +38,9 @@ fn main() {
         "wm-replay" => wm::replay(rest),
         "wm-record" => wm::record(rest),
         "join-replay" => join::replay(rest),
+        "value-eq" => misc::value_eq(rest),
+        "for-expand" => misc::for_expand(rest),
+        "event-file" => misc::event_file(rest),
         other => {
             eprintln!("unknown engine {other}");
             std::process::exit(2);
